@@ -75,9 +75,13 @@ fn get_node_cover_range_impl(
         }
     }
     let node_range = node.range();
+    // Only the document itself is formatted as markup. The body of a content block, strong/emph,
+    // heading or list item cannot be replaced in isolation: its edge blanks and the indentation
+    // of its continuation lines belong to the enclosing node, which is selected instead.
+    let is_document = node.is::<Markup>() && node.parent().is_none();
     (node_range.start <= range.start
         && node_range.end >= range.end
-        && (node.is::<Markup>() || node.is::<Expr>() || node.is::<Pattern>()))
+        && (is_document || !node.is::<Markup>() && (node.is::<Expr>() || node.is::<Pattern>())))
     .then(|| (node.span(), mode))
     // It returns span to avoid problems with borrowing.
 }
